@@ -259,7 +259,8 @@ func run(prop, tier string, seed int64, outDir, replay string) (*core.Result, er
 			}
 			// C06, "all valid variable objects": decode a variables object into the generated input
 			// struct, marshal, decode again
-			if prop == "C06" && len(doc.Operations) > 0 && (replayCase == nil || replayCase.Vars != nil) {
+			// (not for subscriptions: their helper takes a WebSocketClient and returns a channel)
+			if prop == "C06" && len(doc.Operations) > 0 && doc.Operations[0].Operation != ast.Subscription && (replayCase == nil || replayCase.Vars != nil) {
 				nIn := 3
 				if tier == "thorough" {
 					nIn = 8
